@@ -745,14 +745,18 @@ package io
 
 // big rationals off the wire: a long-integer token that does not parse yields no *big.Int; it
 // must not be handed to Rat.SetInt (C04)
+// (assumed) parsing helpers: they only record an error
 //@ func (*Decoder).stringToBigInt
-//@   havoc
-//@ func (*Decoder).readBigInt
-//@   havoc
-//@   use decwf
-//@   modifies ghost.rpos[ival(dec.reader)], ghost.rfailed[ival(dec.reader)]
+//@   requires dec != nil
+//@   modifies dec.Error
+//@   ensures old(dec.Error) != nil ==> dec.Error != nil
 //@ func (*Decoder).stringToBigRat
-//@   havoc
+//@   requires dec != nil
+//@   modifies dec.Error
+//@   ensures old(dec.Error) != nil ==> dec.Error != nil
+//@ func (*Decoder).readBigInt
+//@   use decwf
+//@   modifies @DECWIN, dec.buf[*]
 //@ func (*Decoder).decodeBigRat
 //@   prop C04
 //@   havoc
